@@ -62,6 +62,9 @@ Definition init_store (nrec : nat) : store :=
 Inductive opk :=
 | SetData (k : key) (v : val)          (* recording.set_data(k, v)        A:148-157 *)
 | AddMeta (kv : list (key * val))      (* recording.add_metadata({..})    A:159-165 *)
+| AddMetaMut (kv : list (key * val)) (k : key) (v : val)
+                                       (* d = {kv}; recording.add_metadata(d); d[k] = v  - the caller keeps using
+                                          its dict after the request returned (finding F12, see [late_view]) *)
 | Save.                                (* cassette.save_recording(rec)    A:89-95, T:60-67 *)
 
 (** [o_idx]: position in its producer's workload (identification only);
@@ -70,6 +73,23 @@ Record op := Op { o_idx : nat; o_rec : nat; o_kind : opk; o_fail : bool }.
 
 Definition is_write (x : op) : bool :=
   match o_kind x with Save => false | _ => true end.
+
+(** What the flusher actually executes for a request.  A:165 enqueues
+    [lambda: self.wrapped_recording.add_metadata(metadata)]: the closure holds the caller's dict object, not its
+    items, so the items are read when the flusher runs the operation, i.e. after the caller's later change (the
+    change is part of the producer's atomic step here; a flusher that runs in between sees the unchanged dict,
+    which is the synchronous result).  Synchronous recording copies the items during the call
+    (memory_recording.py:67 [self.recording_metadata.update(metadata)]). *)
+Definition late_view (x : op) : op :=
+  match o_kind x with
+  | AddMetaMut kv k v => Op (o_idx x) (o_rec x) (AddMeta (kv ++ [(k, v)])) (o_fail x)
+  | _ => x
+  end.
+
+Definition args_stable_op (x : op) : bool :=
+  match o_kind x with AddMetaMut _ _ _ => false | _ => true end.
+(** the callers do not modify an object after passing it in a request *)
+Definition args_stable (w : list (list op)) : bool := forallb (forallb args_stable_op) w.
 
 (** One request executed against the wrapped cassette: new store and whether the call returned
     normally ([false] = it raised an Exception).  Unknown recording ordinals cannot be produced by
@@ -84,7 +104,7 @@ Definition apply_op (st : store) (x : op) : store * bool :=
                if r_closed r then (st, false)                                  (* R:35 assert not self._closed *)
                else (Store (nm_set (o_rec x) (RecState (dict_set k v (r_data r)) (r_meta r) false) (live st))
                            (saved st), true)
-           | AddMeta kv =>
+           | AddMeta kv | AddMetaMut kv _ _ =>                                 (* items as they are during the call *)
                if r_closed r then (st, false)                                  (* R:83 assert not self._closed *)
                else (Store (nm_set (o_rec x) (RecState (r_data r) (dict_update kv (r_meta r)) false) (live st))
                            (saved st), true)
@@ -97,15 +117,18 @@ Definition apply_op (st : store) (x : op) : store * bool :=
 (** a request tagged with the producer (caller thread) that issued it *)
 Definition top := (nat * op)%type.
 
-(** run requests one after the other, logging each outcome: this is synchronous recording *)
-Fixpoint run_ops (st : store) (l : list top) : store * list (top * bool) :=
+(** run requests one after the other under a view of their arguments, logging each outcome *)
+Fixpoint run_ops_v (view : op -> op) (st : store) (l : list top) : store * list (top * bool) :=
   match l with
   | [] => (st, [])
   | x :: r =>
-      let '(st1, ok) := apply_op st (snd x) in
-      let '(st2, log) := run_ops st1 r in
+      let '(st1, ok) := apply_op st (view (snd x)) in
+      let '(st2, log) := run_ops_v view st1 r in
       (st2, (x, ok) :: log)
   end.
+
+(** synchronous recording: every request takes effect during the call *)
+Definition run_ops : store -> list top -> store * list (top * bool) := run_ops_v (fun x => x).
 
 Definition sync_apply (st : store) (l : list top) : store := fst (run_ops st l).
 
@@ -225,10 +248,10 @@ Definition step_fn (strict : bool) (c : choice) (s : state) : option state :=
   | CExec =>
       match fl s with
       | Batch (x :: r) =>
-          let '(st', ok) := apply_op (wstore s) (snd x) in
+          let '(st', ok) := apply_op (wstore s) (late_view (snd x)) in
           Some (State (pending s) (aclosed s) (buffer s) (Batch r) (stop s) (applied s ++ [(x, ok)]) st' (hist s))
       | Final (x :: r) =>
-          let '(st', ok) := apply_op (wstore s) (snd x) in
+          let '(st', ok) := apply_op (wstore s) (late_view (snd x)) in
           Some (State (pending s) (aclosed s) (buffer s) (Final r) (stop s) (applied s ++ [(x, ok)]) st' (hist s))
       | _ => None
       end
@@ -284,8 +307,9 @@ Definition Inv (nrec : nat) (w : list (list op)) (s : state) : Prop :=
   (match fl s with PreFinal | FLocked | Final _ | Done => stop s = true | _ => True end) /\
   (* I4: nothing is left in the buffer behind the final swap *)
   (match fl s with Final _ | Done => buffer s = [] | _ => True end) /\
-  (* I5: the wrapped cassette and the outcome log are those of running the applied operations synchronously *)
-  (wstore s, applied s) = run_ops (init_store nrec) (map fst (applied s)) /\
+  (* I5: the wrapped cassette and the outcome log are those of running the applied operations one after the other
+         (arguments as the flusher sees them) *)
+  (wstore s, applied s) = run_ops_v late_view (init_store nrec) (map fst (applied s)) /\
   (* I6: per producer, issued requests followed by pending requests = its workload (order-preserving merge,
          nothing lost, nothing invented) *)
   length (pending s) = length w /\
